@@ -75,11 +75,12 @@ PROPS['C07'] = {
     'theorems': ['Suiron.C07.const_const_symm_partial', 'Suiron.C07.nonvar_var_forward_partial', 'Suiron.C07.empty_vs_nonempty_partial'],
     'oracles': ['C07'],
     'suites': {
-        'quick': unify_runs('C07', 4000, [[], ['--anon']], exhaustive=[(['--anon'], 1)]),
-        'thorough': unify_runs('C07', 100000, [[]] * 6 + [['--anon']] * 4, exhaustive=[([], 2), (['--anon'], 2)]),
+        'quick': unify_runs('C07', 4000, [[], ['--anon'], ['--anon', '--renamed']], exhaustive=[(['--anon'], 1), (['--anon', '--renamed'], 1)]),
+        'thorough': unify_runs('C07', 100000, [[]] * 6 + [['--anon']] * 4 + [['--anon', '--renamed']] * 4, exhaustive=[([], 2), (['--anon'], 2), (['--anon', '--renamed'], 2)]),
     },
     'exhaustive_in': {'quick': True, 'thorough': True},
-    'rule': U_RULE + " Every subject pair is unified in both orders by the oracle.",
+    'rule': U_RULE + " Every subject pair is unified in both orders by the oracle; the `--renamed` runs first rename each side apart with recreate_variables (own name "
+            "maps, as a rule head and a goal are), so list patterns and literal empty lists are seen as the engine sees them.",
     'design_ref': '5.7',
     'assumptions': [
         "PARTIAL: the proved theorems cover the symmetric dispatch (constants, term-vs-variable forwarding, empty list vs list pattern); the full "
@@ -353,16 +354,18 @@ PROPS['C15'] = {
     'suites': {
         'quick': [{'suite': 'lists', 'args': ['--props', 'C15', '--n', '3000']}, {'suite': 'lists', 'args': ['--props', 'C15', '--exhaustive']},
                   {'suite': 'rename', 'args': ['--props', 'C10', '--exhaustive']},
-                  {'suite': 'builtins', 'args': ['--kind', 'append', '--props', 'C16', '--n', '2000']}, {'suite': 'builtins', 'args': ['--kind', 'c17', '--props', 'C17', '--n', '2000']}],
+                  {'suite': 'builtins', 'args': ['--kind', 'append', '--props', 'C16', '--n', '2000', '--no-tails']},
+                  {'suite': 'builtins', 'args': ['--kind', 'c17', '--props', 'C17', '--n', '2000', '--only-filter', '--no-tails']}],
         'thorough': [{'suite': 'lists', 'args': ['--props', 'C15', '--n', '100000']} for _ in range(4)] + [{'suite': 'lists', 'args': ['--props', 'C15', '--exhaustive']},
                   {'suite': 'rename', 'args': ['--props', 'C10', '--exhaustive']}, {'suite': 'rename', 'args': ['--props', 'C10', '--n', '50000']},
-                  {'suite': 'builtins', 'args': ['--kind', 'append', '--props', 'C16', '--n', '50000']}, {'suite': 'builtins', 'args': ['--kind', 'c17', '--props', 'C17', '--n', '50000']}],
+                  {'suite': 'builtins', 'args': ['--kind', 'append', '--props', 'C16', '--n', '50000', '--no-tails']},
+                  {'suite': 'builtins', 'args': ['--kind', 'c17', '--props', 'C17', '--n', '50000', '--only-filter', '--no-tails']}],
     },
     'exhaustive_in': {'quick': True, 'thorough': True},
     'rule': "lists suite: make_linked_list (tail flag on/off) and make_list_of_terms called on vectors of 0-5 terms over atoms, integers, floats, variables, `$_`, the empty list, "
             "a 2-element list, a list with tail variable and a complex term; exhaustive part: all vectors of length <= 3 over those 9 kinds x both builders x tail flag. "
             "Compared with the model: the complete structure (every count and flag). Renamed clause lists come from the rename suite, append/include/exclude results from "
-            "the builtins suite. Non-trivial/distinct = distinct encoded case text.",
+            "the builtins suite (inputs without bound tail variables, so that only the building of the result is judged here). Non-trivial/distinct = distinct encoded case text.",
     'design_ref': '5.15',
     'assumptions': ["oracle on the implementation: the result is well formed (counts = remaining cells, ends in the empty node, tail variable last) and holds exactly the given "
                     "terms, resp. — for the documented constructor — the terms, a trailing tail variable as tail, a trailing list spliced in as the rest",
